@@ -338,6 +338,8 @@ def run(ctx):
     d3(db, rep, tu, type_enum[0], tnames)
     from x86enc import check_rex_coverage
     check_rex_coverage(db, rep, "D5-REX-COVERAGE", tnames)
+    from x86enc import check_rex_roles
+    check_rex_roles(db, rep, "D5-REX-ROLES", tnames)
     from x86enc import check_disp8
     check_disp8(db, rep, "D6-DISP8-RANGE")
     d4(db, rep)
